@@ -41,6 +41,21 @@ CLAIMED = {
    design="7/C17",
    note="Trusted: Coq kernel, translator, harness; struct IEEE unpacking and text decoding are CPython's (latin1 = identity in the runs).",
    technique="Coq proof (round-trip by induction over the parameter list, bitmap lemma) + translator facts + vm_compute correspondence"),
+ "C13": dict(
+   text="Coq theorems over Model/Route.v with the middleware list and catalog database names regenerated from session.py / "
+        "constants.py: the ordered chain computes the routing specification for every statement (built-in kinds and FROM-less SELECTs "
+        "-> library; SELECT-like statements whose tables all resolve to catalog databases -> catalog executor; everything else -> "
+        "application) and only USE changes the default database; for EVERY statement list and default database handle_query yields "
+        "exactly the specified application calls, in textual order, each once, each with the database selected before it, and the last "
+        "statement's result (induction over the list); built-ins never reach the application; after any history of handshake / "
+        "COM_INIT_DB / USE / COM_CHANGE_USER / queries the default database is the one the client selected last. Tie: labelled "
+        "statement grammar through the real connection (COM_QUERY and prepare/execute, query attributes), application-call log and "
+        "results against labels and model.",
+   design="7/C13",
+   note="Trusted: Coq kernel, translator, harness; SQL text -> (kind, tables) is sqlglot's parser + utils.find_tables (exercised on "
+        "every generated statement, not modelled). DATABASE()/VERSION() are not generated: sqlglot 30 parses them into nodes the "
+        "library's function table does not know (pre-existing failures of the pinned suite).",
+   technique="Coq proof (case analysis over the chain, induction over statement lists and connection histories) + translator facts + vm_compute correspondence"),
  "C14": dict(
    text="Coq theorems over Model/Vars.v instantiated with the regenerated schema (SYSTEM_VARIABLES), validators, character-set tables "
         "and transaction characteristics: read-your-writes with the coercion of the variable's type and nothing else moving; DEFAULT / "
